@@ -18,6 +18,25 @@ CHECKS = {
               '(outputs > 0 for the multiplicative and log-normal models).'),
         technique='contract-based deductive verification: symbolic execution of the real function bodies + Sigma-normal-form/z3 discharge of postconditions',
     ),
+    'C05': dict(
+        category='proof',
+        text=('Deductive proof with the number of individuals N and the dimensionality d symbolic: Gaussian, log-normal (centred and '
+              'non-centred) and truncated-Gaussian population models return the documented log-density summed over individuals and '
+              'dimensions in every accepted parameter layout (flat, matrix, per-individual tensor; layout invariance proved); their '
+              'sensitivities equal the mechanically derived derivatives of that specification plus the chain-rule terms of the supplied '
+              'upstream sensitivities, in the separate, per-individual and hierarchical (reduce=True) forms, with lengths N d + 2 d; '
+              'pooled and heterogeneous models are point masses with the documented reductions; the composed model is verified '
+              'modularly against stub sub-models that obey only the population-model interface contract with symbolic block sizes '
+              '(all compositions of up to 2 sub-model kinds in the quick tier, 3 in the thorough tier): callee preconditions (own '
+              'slice of parameters, individual parameters and upstream sensitivities) at every call site, and additive value / '
+              'concatenated gradients at the published offsets.'),
+        design_ref='DESIGN.md section 4 (C05) and interface contract I1-I5',
+        note=('Floats as reals; symbolic numpy model conformance-checked each run; sympy/z3; density tables; receiver representation '
+              'invariant generalised from the real constructor (checked natively for d, N in 1..3, bounded); composed models: number of '
+              'sub-models bounded (2 quick / 3 thorough), block sizes symbolic.  Two recorded known findings (matrix layout in '
+              'LogNormalModel.compute_sensitivities and in the non-centred compute_individual_parameters) are carved out by obligation name.'),
+        technique='contract-based deductive verification: symbolic execution of the real function bodies + Sigma-normal-form/z3 discharge; assume-guarantee stubs for composition',
+    ),
 }
 NOT_APPLICABLE = {}
 
